@@ -161,4 +161,28 @@ U('C05', 'c05.conv.double', CONV('d'), 'pre_f2d', 'post_f2d', replace=[(F2FP('d'
 U('C05', 'c05.conv.float', CONV('f'), 'pre_finite1', 'post_f2fl', replace=[(F2FP('f'), 'pre_finite1', 'post_f2fl')], cxx='static_cast<float>($1)')
 U('C05', 'c05.roundtrip', 'lem_c05_roundtrip', 'pre_c05_rt', None, lemma=True, cxx='lem_c05_roundtrip($1)', backends=('sat', 'kissat'), timeout=600)
 
+# ----------------------------------------------------------------------------- C02
+prop('C02', 'proof',
+     'fixed_multiplyi is verified against the 128-bit product for all pairs of finite raw values (NaN or within one '
+     'ulp; not NaN when the raw product fits in int64; NaN when the exact product is out of range); '
+     'fixed_multiply_scalar<T> is verified exact-or-NaN for all 8 integral types in both operand orders with the '
+     'scalar taken as a mathematical integer; operator* and operator*= are verified with the kernels replaced by '
+     'their contracts. Multiplier obligations are discharged by kissat/cadical.',
+     assumptions=['the non-GNU fallback branch of detail::checked_multiply (#else of __GNUC__/__clang__) is not compiled '
+                  'in any configuration of C08 and is not under contract (differentially tested natively once, see DESIGN.md)'])
+MULI = '_ZN9fixedmath6detail15fixed_multiplyiENS_7fixed_tES1_'
+K_MULI = (MULI, 'pre_c01', 'post_mul')
+MULBE = ('kissat', 'cadical')
+U('C02', 'c02.mul.kernel', MULI, 'pre_c01', 'post_mul', cxx='fixedmath::detail::fixed_multiplyi($1,$2)', backends=MULBE, timeout=600, split=True)
+U('C02', 'c02.mul.op', '_ZN9fixedmathmlINS_7fixed_tES1_vEEDaT_T0_', 'pre_c01', 'post_mul', replace=[K_MULI], cxx='($1 * $2)', backends=MULBE, timeout=300)
+U('C02', 'c02.mul.assign', '_ZN9fixedmathmLINS_7fixed_tEvEERS1_S2_T_', 'pre_c01', 'post_mul', replace=[K_MULI], cxx='($1 *= $2)', backends=MULBE, timeout=300)
+for t, ct in ITYPES:
+    ks = ('_ZN9fixedmath6detail21fixed_multiply_scalarI%svEENS_7fixed_tES2_T_' % t, 'pre_muls_' + t, 'post_muls_' + t)
+    kr = ('_ZN9fixedmath6detail21fixed_multiply_scalarI%svEENS_7fixed_tET_S2_' % t, 'pre_mulsr_' + t, 'post_mulsr_' + t)
+    U('C02', 'c02.muls.%s' % ct, ks[0], ks[1], ks[2], cxx='fixedmath::detail::fixed_multiply_scalar($1,$2)', backends=MULBE, timeout=600, split=True)
+    U('C02', 'c02.mulsr.%s' % ct, kr[0], kr[1], kr[2], replace=[ks], cxx='fixedmath::detail::fixed_multiply_scalar($1,$2)', backends=MULBE, timeout=300)
+    U('C02', 'c02.op.f_%s' % ct, '_ZN9fixedmathmlINS_7fixed_tE%svEEDaT_T0_' % t, ks[1], ks[2], replace=[ks], cxx='($1 * $2)', backends=MULBE, timeout=300)
+    U('C02', 'c02.op.%s_f' % ct, '_ZN9fixedmathmlI%sNS_7fixed_tEvEEDaT_T0_' % t, kr[1], kr[2], replace=[ks], cxx='($1 * $2)', backends=MULBE, timeout=300)
+    U('C02', 'c02.assign.%s' % ct, '_ZN9fixedmathmLI%svEERNS_7fixed_tES2_T_' % t, ks[1], ks[2], replace=[ks], cxx='($1 *= $2)', backends=MULBE, timeout=300)
+
 NOT_APPLICABLE = {}
